@@ -107,6 +107,16 @@ func setOutgoingHeader(header http.Header, md metadata.MD) {
 	}
 }
 
+// setOutgoingTrailer is setOutgoingHeader for trailers that were not
+// announced in the "Trailer" header before the headers were flushed.
+func setOutgoingTrailer(header http.Header, md metadata.MD) {
+	tr := make(http.Header, len(md))
+	setOutgoingHeader(tr, md)
+	for k, vs := range tr {
+		header[http.TrailerPrefix+k] = vs
+	}
+}
+
 func encodeGrpcMessage(msg string) string {
 	var (
 		sb  strings.Builder
@@ -594,13 +604,12 @@ func (m *Mux) serveGRPC(w http.ResponseWriter, r *http.Request) {
 		}
 		h.Set("Grpc-Status-Details-Bin", encodeBinHeader(stBytes))
 	}
-	setOutgoingHeader(h, stream.trailer)
+	// Custom trailers are not announced: send them with the trailer prefix.
+	setOutgoingTrailer(h, stream.trailer)
 
 	if sh := m.opts.statsHandler; sh != nil {
 		endTime := time.Now()
 
-		// Try to send Trailers, might not be respected.
-		setOutgoingHeader(w.Header(), stream.trailer)
 		sh.HandleRPC(ctx, &stats.OutTrailer{
 			Trailer: stream.trailer.Copy(),
 		})
